@@ -1,4 +1,5 @@
 import GarbleVerif.Proofs.SrcFrame
+import GarbleVerif.Proofs.BitMain
 /-!
 # C14 — no shared mutable state
 
@@ -16,7 +17,19 @@ circuits are compared with on every run):
   state the condition left; a loop runs its body once per element, in order, each iteration
   starting from the state the previous one left.
 
-The merging of variables by the compiler (`mux_envs`) is not modelled; it is tied to these
+The merging of variables by the compiler (`mux_envs`) is modelled for the core fragment
+(Model/BitSem.lean: scalars, `if`, `&&` / `||`, blocks, `let`, `let mut`, assignment to a variable):
+
+* `C14_compiled_scope`, `C14_compiled_stmts_scope`: the compiled code keeps the scope stack — after
+  an expression exactly the same variables (names, types, order) are in scope, statements only add
+  their own bindings in front; so the two environments merged after an `if` always line up;
+* `C14_merge`: the variable-by-variable merge of two such environments is the environment of the
+  branch taken;
+* `C14_compiled_state`: after any statements of the fragment — assignments inside branches, inside
+  the right operand of `&&` / `||`, inside nested blocks with shadowing — the wires of every
+  variable in scope carry exactly the value the source semantics give it.
+
+Outside that fragment (aggregates, accessors, `match`, loops, calls) the merging is tied to these
 semantics by the correspondence run (programs that return every visible variable).
 -/
 namespace GV
@@ -150,4 +163,44 @@ example : evalExpr 10 ⟨[], []⟩ [("x", .int 1)]
     .ok (.bool true, [("x", .int 1)]) := by rfl
 
 end Src
+end GV
+
+namespace GV
+namespace Bit
+open Src
+
+/-- **the compiled code keeps the scope stack** (expressions) -/
+theorem C14_compiled_scope (e : Expr) (benv benv' : BEnv) (t : VTy) (bs : List Bool) (p : P)
+    (h : bitExpr benv e = some (t, bs, p, benv')) : shape benv' = shape benv :=
+  shapeE e benv t bs p benv' h
+
+/-- statements only add their own bindings in front of the variables they found -/
+theorem C14_compiled_stmts_scope (ss : StmtList) (benv benv' : BEnv) (t : VTy) (bs : List Bool) (p : P)
+    (h : bitStmts benv ss = some (t, bs, p, benv')) : ∃ pre, shape benv' = pre ++ shape benv :=
+  shapeSS ss benv t bs p benv' h
+
+/-- **`mux_envs`**: merging, variable by variable, two environments with the same variables gives the
+environment of the branch taken -/
+theorem C14_merge (c : Bool) (a b : BEnv) (h : shape a = shape b) : muxEnv c a b = if c then a else b :=
+  muxEnv_eq c a b h
+
+/-- **no variable is lost or mixed up by control flow**: whatever the statements do, afterwards the wires
+of every variable in scope encode the value the source semantics give that variable -/
+theorem C14_compiled_state (prog : Prog) (fuel : Nat) (env env' : Src.Env) (benv benv' : BEnv) (body : StmtList)
+    (t : VTy) (bits : List Bool) (p : P) (v : Val)
+    (henv : EnvRel env benv) (hbits : bitStmts benv body = some (t, bits, p, benv'))
+    (hsrc : evalStmts fuel prog env body = .ok (v, env')) : EnvRel env' benv' := by
+  have h := (core_all prog fuel).2.1 body env benv _ bits p benv' henv hbits
+  rw [hsrc] at h
+  exact h.2.2
+
+/-- non-vacuity: `if c { x = 1u8; y = x; } else { y = 2u8; }` — both variables are merged -/
+example : bitStmts [("c", .bool, [false]), ("x", .int .u8, enc .u8 7), ("y", .int .u8, enc .u8 0)]
+    (.cons (.expr (.ite (.var "c")
+      (.block (.cons (.assign "x" .nil (.int 1 .u8)) (.cons (.assign "y" .nil (.var "x")) .nil)))
+      (.block (.cons (.assign "y" .nil (.int 2 .u8)) .nil)))) .nil) =
+    some (.unit, [], none, [("c", .bool, [false]), ("x", .int .u8, enc .u8 7), ("y", .int .u8, enc .u8 2)]) := by
+  rfl
+
+end Bit
 end GV
